@@ -17,6 +17,12 @@ CHECKS = {
  "C07": (True, "abstract interpretation of the three distance functions: per-column transfer functions over 17x17 symbol pairs classified against specified column classes; algebraic normalisation (rational functions with log atoms) of the returned expression against Tamura-Nei eq. 7 written independently",
          "per-column contribution of every counter in rawDistance/snpDistance/tn93Distance for all 289 symbol pairs; the returned expression equals n/d, n, and TN93 eq. 7 as an algebraic identity; base-count fields are filled from the table codes of A,C,G,T by the scoring reader only; distance arguments are (query parameter, channel-fed target).",
          "Trusted: go/types, go/ssa, checker/eval, checker/algebra, checker/oracle. Not decided: floating-point rounding; inputs where eq. 7's logarithms are undefined (excluded by the property)."),
+ "C08": (True, "abstract interpretation with the pair classifier stubbed: bounded-exhaustive evaluation of the bin routines over all ordering patterns of short target streams; exhaustive evaluation of balance() and checkArgs over small option grids; whichWay on all pairs of short sequences; writers on a symbolic result",
+         "each bin is the prefix of its candidates ranked by (distance, fewer ambiguities, file order) within the distance limit and cut to balance()'s size, for all streams of <=3 (thorough 4) targets per bin and mixed streams; the four bin blocks agree; balance() equals the specified allocation for all requested/available sizes in 0..2 (thorough 0..3); --dist-push keeps exactly the k nearest occurring distances; whichWay's bin and SNP distance on all pairs of length-2 (thorough 3) sequences over {A,C,G,N}; checkArgs normalisation; writer column order and bin names; stable sorts.",
+         "Trusted: checker/eval, go/types. Bounded: streams longer than the bound, sizes above the bound and longer sequences are not enumerated; the selection code touches distances/ambiguity counts only through comparisons, so the bound covers all ordering patterns of that many targets. Not decided: the --threshold-target filter in splitInput, option combinations the help text forbids."),
+ "C10": (True, "abstract interpretation of getLines: per-column transfer function over (reference symbol, query symbol, open-tract state) for all 17x17x2 points vs the specified two-state transducer; writer interpreted on a symbolic record",
+         "SNP iff query is A/C/G/T and outside the reference symbol's base set (string, 1-based position, counter); ambiguity counter on every non-A/C/G/T column; tract open/extend/close with 1-based inclusive bounds; flush at the end; emitted record carries exactly those lists; writer header, column order, separators and a / a-b range forms.",
+         "Trusted: checker/eval, checker/oracle, go/types. Not decided: the round trip 'reconstructible up to identity of non-A/C/G/T symbols' follows from these clauses only informally; FASTA reading (C16); output ordering (C12)."),
  "C17": (True, "constant-table extraction by abstract interpretation of the constructors' syntax trees; exhaustive comparison with an independent IUPAC / standard-genetic-code oracle",
          "the codon dictionary over all 3375 IUPAC codons, both complement tables over all 256 bytes, encoding/decoding tables, Translate on every single codon in both modes, Complement/ReverseComplement and the four record methods on every accepted symbol and distinct-symbol strings of length 0..8.",
          "Trusted: go/types, the evaluator (checker/eval), the oracle tables (checker/oracle). Not decided: strings longer than the evaluated lengths are covered only by the observation that these functions never branch on symbol identity except through the extracted tables."),
